@@ -113,14 +113,17 @@ def _worker(task):
     vals = values(tier) if full else values('quick')[::3]
     received = []
 
-    def h(x, y=None):
+    def h(x, y=None, z=0.125):          # (z: a float default that rounding at tol 0..2 would change)
         received.append((x, y))
         return len(received)
     cfgtxt = '%s.%s_cache tol=%r deep=%r keymap=%s' % (mod, alg, tol, deep, kmname)
+    Wref = None
     if alg == 'keygen':
         K = klepto.keygen(tol=tol, deep=deep, keymap=mk())(h)
         W = None
         keyfn = K
+        # the decorators compute their keys by the same rule: one of them, same settings, for comparison
+        Wref = klepto.inf_cache(keymap=mk(), tol=tol, deep=deep)(h)
     else:
         W = _decorator(mod, alg, keymap=mk(), tol=tol, deep=deep)(h)
         keyfn = W.key
@@ -147,6 +150,32 @@ def _worker(task):
                 res['violations'].append(_v('C12', {'rule': 'caller-arguments-mutated', 'kind': kind},
                                             '%s: arguments %r were mutated to %r' % (cfgtxt, before, (a, k)),
                                             {'task': list(task), 'value': repr(v), 'form': form}))
+            if Wref is not None:
+                # klepto.keygen and the cache decorators agree on the key of a call
+                try:
+                    kref = Wref.key(*a, **k)
+                except Exception as e:
+                    kref = ('RAISED', type(e).__name__)
+                if repr(kref) != repr(key):
+                    res['violations'].append(_v('C12', {'rule': 'keygen-key-differs-from-decorator-key', 'kind': kind, 'deep': bool(deep)},
+                                                '%s: keygen gives %r, inf_cache with the same settings gives %r for call %r' % (cfgtxt, key, kref, (a, k)),
+                                                {'task': list(task), 'value': repr(v), 'form': form}))
+                # keygen remembers the last call: call() evaluates the function with the caller's own objects
+                n0 = len(received)
+                try:
+                    K.call()
+                    rx, ry = received[-1] if len(received) > n0 else (None, None)
+                    ax = a[0] if a else k.get('x')
+                    ay = k.get('y')
+                    if len(received) != n0 + 1 or rx is not ax or ry is not ay:
+                        res['violations'].append(_v('C12', {'rule': 'function-sees-altered-arguments', 'kind': kind, 'via': 'keygen.call'},
+                                                    '%s: keygen.call() handed %r to the function after the call %r' % (cfgtxt, (rx, ry), (a, k)),
+                                                    {'task': list(task), 'value': repr(v), 'form': form}))
+                except Exception as e:
+                    res['violations'].append(_v('C12', {'rule': 'rounding-makes-valid-call-fail', 'exc': type(e).__name__, 'deep': bool(deep),
+                                                        'kind': kind, 'where': 'keygen.call'},
+                                                '%s: keygen.call() after %r raised %r' % (cfgtxt, (a, k), e),
+                                                {'task': list(task), 'value': repr(v), 'form': form}))
             entries.append((kind, form, v, want, key, a, k))
             if tol is None and W is not None:
                 k0 = W0.key(*a, **k)
